@@ -122,7 +122,11 @@ POST = [["call", "inc"], ["call", "dbl"], ["call", "tag:p"], ["var", "r", "sq"],
 MAPSEQ = [[["call", "inc"]], [["call", "dbl"]], [["var", "m", "inc"]], [["call", "id"]],
           [["call", "inc"], ["call", "dbl"]], [["call", "ctx:z"], ["call", "neg"]],
           [["split", [[["call", "inc"]], [["call", "dbl"]]], 10]],
-          [["call", "tag:q"]], [["count", "mc"]], [["count", "mc"], ["call", "inc"]]]
+          [["call", "tag:q"]], [["count", "mc"]], [["count", "mc"], ["call", "inc"]],
+          # a bare fill/compute element (not a run element: MapBins converts it) has state
+          # (not a StoreFilled that yields a list: a list as a cell content is indistinguishable
+          # from a nested array of bins)
+          [["fccount", "fc"]], [["store", 0]]]
 
 
 def cases(tier, seed):
@@ -656,3 +660,5 @@ def _bad(r, obs, lena):
 RULE += (" The context of every yielded histogram (besides 'variable') is compared with the context of the last value inside the edges; IterateBins is consumed by a streaming consumer that updates received contexts in place (identity walker between cells); one MapBins object meets three histograms in two runs.")
 RULE += (' Every SplitIntoBins is computed a second time with nothing filled in between: the '
          'contexts (context.variable in particular) are those of the first compute.')
+RULE += (' MapBins is also given bare fill/compute elements (FillCompute(Count), StoreFilled), which '
+         'keep state between the cells unless every cell gets its own copy.')
